@@ -1,8 +1,6 @@
 package ubi
 
 import (
-	"fmt"
-
 	kiratypes "github.com/KiraCore/sekai/types"
 	"github.com/KiraCore/sekai/x/gov/types"
 	"github.com/KiraCore/sekai/x/ubi/keeper"
@@ -36,19 +34,22 @@ func (a ApplyUpsertUBIProposalHandler) Apply(ctx sdk.Context, proposalID uint64,
 		return ubitypes.ErrSpendingPoolDoesNotExist
 	}
 
-	yearSeconds := uint64(31556952)
-	hardcap := a.gk.GetNetworkProperties(ctx).UbiHardcap
-	allRecords := a.keeper.GetUBIRecords(ctx)
-	ubiSum := uint64(0)
-	for _, record := range allRecords {
-		ubiSum += record.Amount * yearSeconds / record.Period
+	// a zero period would pay in every block: its yearly total is unbounded
+	if p.Period == 0 {
+		return ubitypes.ErrUbiSumOverflowsHardcap
 	}
 
-	fmt.Println("ubiSum", ubiSum)
-	fmt.Println("ubiSum+p.Amount*yearSeconds/p.Period", ubiSum+p.Amount*yearSeconds/p.Period)
-	fmt.Println("hardcap", hardcap)
+	// the yearly totals are computed in sdk.Int: the uint64 products amount * 31556952 wrap
+	yearSeconds := sdk.NewInt(31556952)
+	hardcap := sdk.NewIntFromUint64(a.gk.GetNetworkProperties(ctx).UbiHardcap)
+	allRecords := a.keeper.GetUBIRecords(ctx)
+	ubiSum := sdk.ZeroInt()
+	for _, record := range allRecords {
+		ubiSum = ubiSum.Add(sdk.NewIntFromUint64(record.Amount).Mul(yearSeconds).Quo(sdk.NewIntFromUint64(record.Period)))
+	}
+
 	// fail if sum of all ((float)amount / period) * 31556952 for all UBI records is greater than ubi-hard-cap.
-	if ubiSum+p.Amount*yearSeconds/p.Period > hardcap {
+	if ubiSum.Add(sdk.NewIntFromUint64(p.Amount).Mul(yearSeconds).Quo(sdk.NewIntFromUint64(p.Period))).GT(hardcap) {
 		return ubitypes.ErrUbiSumOverflowsHardcap
 	}
 
